@@ -119,8 +119,11 @@ def build_trainer(name, hyper, batch_reduction, per_cell=False):
 
 class Harness:
     def __init__(self, trainer, conn_kind, dt=1.0, B=1, delay_steps=None, seed=0, batch_reduction=torch.sum, hyper=None,
-                 dtype=None, syn="delta", max_delay_steps=None, per_cell=False):
+                 dtype=None, syn="delta", max_delay_steps=None, per_cell=False, online=False):
         self.name, self.kind, self.dt, self.B = trainer, conn_kind, dt, B
+        # (MSTDPET registers its eligibility monitors with prepend=False, after the traces they read: it cannot be stepped from
+        # an earlier hook of the same layer, by construction - the online mode is not applied to it)
+        self.online = online = bool(online) and trainer != "MSTDPET"
         self.hyper = {**DEFAULT_HYPER, **(hyper or {})}
         if trainer in NEEDS_DELAY and delay_steps is None:
             delay_steps = 2
@@ -134,6 +137,11 @@ class Harness:
         self.layer = neural.Serial(self.conn, self.neuron)
         self.conn.updater = self.conn.defaultupdater()
         self.trainer = build_trainer(trainer, self.hyper, batch_reduction, per_cell=per_cell)
+        if online:
+            # online learning: the trainer is stepped from a forward hook of the layer that was there BEFORE the cell was
+            # registered; the trainers register their monitors with prepend=True so that they have recorded the step by then
+            self._next = (None, 1.0)
+            self.layer.register_forward_hook(lambda m, a, o: self._call_trainer(*self._next))
         if per_cell:
             self.trainer.register_cell("c", self.layer.cell, batch_reduction=batch_reduction, **trainer_args(trainer, self.hyper))
         else:
@@ -147,6 +155,10 @@ class Harness:
         self.layer(pre, neuron_kwargs={"override": post})
 
     def call_trainer(self, reward=None, scale=1.0):
+        if not self.online:
+            self._call_trainer(reward, scale)
+
+    def _call_trainer(self, reward=None, scale=1.0):
         if self.name in THREE_FACTOR:
             self.trainer(reward, scale)
         else:
@@ -161,6 +173,7 @@ class Harness:
 
     def step_parts(self, pre, post, reward=None, scale=1.0):
         """one layer step + trainer call; returns the reduced (pos, neg) parts and discards them"""
+        self._next = (reward, scale)
         self.forward_only(pre, post)
         self.call_trainer(reward, scale)
         p, n = self.parts()
@@ -170,6 +183,7 @@ class Harness:
     def step_apply(self, pre, post, reward=None, scale=1.0, apply=True):
         """one layer step + trainer call + update; returns (pos, neg, parameter difference).  apply=False: the pending
         parts are read (as a logger would) but left to accumulate until a later call applies them"""
+        self._next = (reward, scale)
         self.forward_only(pre, post)
         self.call_trainer(reward, scale)
         p, n = self.parts()
